@@ -200,6 +200,7 @@ class Extraction:
     wrappers: list = field(default_factory=list)    # outermost numeric wrappers seen: "ceiling", "abs", "int"
     specs: dict = field(default_factory=dict)
     n_paths: int = 0
+    module: typing.Any = None
 
 
 SEQ_LEN = 3
@@ -374,6 +375,9 @@ class vp_trunc(sympy.Function):  # pylint: disable=invalid-name
         v = self.args[0]._eval_evalf(prec)  # pylint: disable=protected-access
         if v is None or not v.is_Number:
             return None
+        r = round(v)
+        if abs(v - r) <= 1e-9 * max(1, abs(r)):      # an integer up to evaluation round-off
+            return sympy.Float(int(r), prec)
         return sympy.Float(int(v), prec)
 
 
@@ -587,6 +591,7 @@ class Branch:
 
 def extract(item: Item) -> Extraction:
     ex = Extraction(item.key)
+    ex.module = item.module
     fn = item.fn
     raw = inspect.unwrap(fn)
     ex.specs = decorator_specs(fn)
